@@ -173,6 +173,7 @@ class SimServer(object):
     self.send_delay = None           # callable(conn) -> float: client send takes time
     self.partial_writes = True       # a stalled send commits a prefix first
     self.send_limit = None           # most bytes a single send() accepts (sendall loops)
+    self.send_cpu = 0.0              # seconds of CPU every send costs: the clock moves on, nothing else runs
 
   @property
   def ep(self):
@@ -402,6 +403,10 @@ class SimSocket(object):
     # is the first send event), the caller stays blocked, the rest follows when the
     # peer drains.  If the caller is interrupted meanwhile only the prefix was written.
     data = bytes(data)
+    if conn.server.send_cpu:
+      # a write that costs CPU time without yielding (TLS, a slow syscall): time passes for everybody,
+      # no timer and no other greenlet runs meanwhile
+      env.clock.now += conn.server.send_cpu
     sd = conn.server.send_delay
     d = (sd(conn, len(data)) if getattr(sd, 'wants_size', False) else sd(conn)) if sd else 0.0
     parts = [data]
